@@ -18,7 +18,7 @@ from quri_parts.core.operator.representation import bsv_bitwise_commute, pauli_l
 PN = {1: "PX", 2: "PY", 3: "PZ"}
 KN = {"KH": "H", "KSdag": "Sdag", "KS": "S", "KX": "X"}
 IMPORTS = ("From Coq Require Import ZArith NArith List.\nFrom QP Require Import Gates.\n"
-           "From QPM Require Import Pauli Measure Grouping.\nFrom QPG Require Import measrot.\nOpen Scope Z_scope.")
+           "From QPM Require Import Pauli Measure Grouping Reconstruct.\nFrom QPG Require Import measrot.\nOpen Scope Z_scope.")
 DEFS = """
 Definition enc_p (p : pauli) : Z := match p with PX => 1 | PY => 2 | PZ => 3 end.
 Definition enc_l (l : label) : list Z := Z.of_nat (length l) :: flat_map (fun ip => [Z.of_nat (fst ip); enc_p (snd ip)]) l.
@@ -27,6 +27,7 @@ Definition enc_groups (gs : list group) : list Z :=
 Definition enc_k (k : gkind) : Z := match k with KH => 1 | KSdag => 2 | KS => 3 | KX => 4 | _ => 99 end.
 Definition enc_circ (c : list gate) : list Z := flat_map (fun g => [enc_k (gk g); Z.of_nat (hd 0%nat (gqs g))]) c.
 Definition b2z (b : bool) : Z := if b then 1 else 0.
+Definition rec1 (l : label) (bits : N) : list Z := [reconstruct l bits].
 """
 
 
@@ -102,6 +103,20 @@ def main():
                             exp = -exp
                     if rec(bits) != exp:
                         res.fail("corr:reconstructor", f"reconstructor {rec(bits)} != parity sign {exp}", {"label": sub, "bits": bits})
+    # reconstructor model (vm_compute) vs the real one on wide registers: indices up to 300, outcome words up to 320 bits
+    for _ in range(n_cases):
+        width = rng.choice([8, 40, 64, 65, 100, 130, 300])
+        k = rng.randint(0, min(width, 6))
+        idx = rng.sample(range(width), k)
+        if k and rng.random() < 0.5 and width - 1 not in idx:
+            idx[0] = width - 1
+        lab = [(i, rng.randint(1, 3)) for i in idx]
+        bits = rng.getrandbits(width + 20)
+        if rng.random() < 0.3:
+            bits |= sum(1 << i for i in idx)
+        real = bitwise_pauli_reconstructor_factory(PauliLabel(lab))(bits)
+        terms.append(f"rec1 {coq_label(lab)} {bits}%N")
+        checks.append(("reconstruct", real, {"label": lab, "bits": bits, "width": width}))
     try:
         model = coqeval.eval_cases(a.work, "c07", IMPORTS, DEFS, terms)
     except Exception as e:  # noqa: BLE001
@@ -124,6 +139,9 @@ def main():
             if got != real:
                 res.fail("corr:grouping:sorted_injection", f"model groups {sorted(map(sorted, got))} != implementation "
                          f"{sorted(map(sorted, real))}", info)
+        elif kind == "reconstruct":
+            if m != [real]:
+                res.fail("corr:reconstructor:model", f"model reconstructor {m} != implementation {real}", info)
         elif kind == "bsv":
             if m != real:
                 res.fail("corr:bsv", f"model {m} != implementation {real}", info)
